@@ -97,6 +97,73 @@ pub fn check_line(line: &str) -> Option<(String, String)> {
     }
 }
 
+/// Interpreter route: the same lines entered at the prompt of an interpreter whose previous
+/// command failed (an immediate statement, a run that died in line 20). A line that does not
+/// tokenize is reported with no program line, as the line just entered, the caret under the
+/// position the tokenizer reports.
+fn interpreter_route(lines: &[String]) -> Vec<(String, String, String)> {
+    use abasic_core::verif::{parse_line_number, tokenize_skipping};
+    let mut out = vec![];
+    let mut s1 = Sess::new();
+    let _ = s1.apply(&Ev::Line("PRINT 1/0".into()));
+    let mut s2 = Sess::new();
+    let _ = s2.apply(&Ev::Line("20 PRINT 1/0".into()));
+    let _ = s2.apply(&Ev::LineToIdle("RUN".into()));
+    for line in lines {
+        let skip = match guarded(|| parse_line_number(line)) {
+            Ok(Some((_, e))) => e,
+            Ok(None) => 0,
+            Err(_) => continue, // reported by the main pass of C05 / C01
+        };
+        let e = match guarded(|| tokenize_skipping(line, skip)) {
+            Ok(Err(e)) => e,
+            _ => continue,
+        };
+        for (name, s) in [("after a failed statement", &mut s1), ("after a run that failed", &mut s2)] {
+            s.recs.clear();
+            let r = s.apply(&Ev::Line(line.clone()));
+            let problem = match &r {
+                CallResult::Panic(p) => Some(format!("panic {}", short_panic(p))),
+                CallResult::Ok => Some("was accepted".to_string()),
+                CallResult::Err(k, l) => {
+                    if !k.contains("Tokenization") {
+                        Some(format!("was rejected as {}", k.split('(').next().unwrap_or(k)))
+                    } else if l.is_some() {
+                        Some("error is attributed to a program line".to_string())
+                    } else if let Some(err) = s.last_err.take() {
+                        match guarded(|| err.get_line_with_pointer_caret(&s.it, Some(line.as_str()))) {
+                            Err(p) => Some(format!("rendering panicked {}", short_panic(&p))),
+                            Ok(c) => {
+                                let col = line[..e.range.start.min(line.len())].chars().count();
+                                let ok = c.len() == 2
+                                    && match c[0].find(line.as_str()) {
+                                        Some(off) => c[1].chars().position(|ch| ch == '^') == Some(c[0][..off].chars().count() + col),
+                                        None => false,
+                                    };
+                                if ok { None } else { Some(format!("is rendered as {:?} (tokenizer reports position {})", c, e.range.start)) }
+                            }
+                        }
+                    } else {
+                        None
+                    }
+                }
+            };
+            if let Some(p) = problem {
+                out.push((
+                    format!("entered {}: a line that does not tokenize {}", name, p.split(" [").next().unwrap_or(&p).chars().filter(|c| !c.is_ascii_digit()).take(60).collect::<String>()),
+                    format!("{:?} entered {}: {} (call result {:?})", line, name, p, r),
+                    line.clone(),
+                ));
+                break;
+            }
+        }
+        if s1.state() != abasic_core::InterpreterState::Idle || s2.state() != abasic_core::InterpreterState::Idle {
+            break;
+        }
+    }
+    out
+}
+
 pub fn run(thorough: bool) -> Report {
     let mut rep = Report::new("C13", "exploration");
     let at = atoms();
@@ -137,6 +204,22 @@ pub fn run(thorough: bool) -> Report {
             }
         }
     }
+    // interpreter route for every line of <= n-1 atoms
+    let mut routed = 0u64;
+    for len in 1..n {
+        let count = pow(base, len);
+        routed += count;
+        let all: Vec<String> = (0..count).map(|i| decode_seq(i, base, len).iter().map(|k| at[*k]).collect::<String>()).collect();
+        let res: Vec<(String, String, String)> = all.par_chunks(2000).flat_map(|c| interpreter_route(c)).collect();
+        for (s, d, l) in res {
+            let e = by_sig.entry(s).or_insert((0, l.clone(), d.clone()));
+            e.0 += 1;
+            if l.len() < e.1.len() {
+                e.1 = l;
+                e.2 = d;
+            }
+        }
+    }
     if kinds.len() < 3 {
         machinery("vacuous: too few outcome classes");
     }
@@ -155,6 +238,7 @@ pub fn run(thorough: bool) -> Report {
         "exhaustive": true,
         "atoms": at,
         "max_atoms": n,
+        "lines_also_entered_at_the_prompt_after_a_failed_command": routed,
         "outcome_classes": kinds,
         "samples": ["GO TOX12", "PRINT\"s t\"<=.5", "A$é", "DATA d , e :REM r "],
     });
